@@ -62,18 +62,18 @@ let run (id : string) (ops : string list) (out : out_channel) =
       let (o, l1) = ip4_serialize l0 (bytes_of_hex p) (fcd.[0] = '1') (fcd.[1] = '1') (junk_of d) in
       let outb = match o with Base.Ok b -> hex_of_bytes b | _ -> "" in
       emit (Printf.sprintf "cls=%s;out=%s;%s" (cls_of o) outb (fields l1))
-    | ("rt" | "bigrt"), (h :: rest) ->
+    | ("rt" | "bigrt" | "newrt"), (h :: rest) ->
       let payload = (match name, rest with
-        | "rt", [p] -> bytes_of_hex p
+        | ("rt" | "newrt"), [p] -> bytes_of_hex p
         | _, [n; seed] -> lcg (int_of_string n) (int_of_string seed)
         | _ -> failwith "rt args") in
-      let ((l, o), _) = ip4_decode_into ip4_fresh (bytes_of_hex h) in
+      let ((l, o), _) = if name = "newrt" then ((of_spec h, Base.Ok ()), false) else ip4_decode_into ip4_fresh (bytes_of_hex h) in
       (match o with
        | Base.Ok _ ->
          let (so, _) = ip4_serialize l payload true true (junk_of 0) in
          (match so with
           | Base.Ok b -> let ((l2, o2), tr2) = ip4_decode_into ip4_fresh b in
-            if name = "rt" then emit (obs (cls_of o2) tr2 l2)
+            if name <> "bigrt" then emit (obs (cls_of o2) tr2 l2)
             else emit (Printf.sprintf "cls=%s;tr=%s;%s;clen=%d;plen=%d" (cls_of o2) (if tr2 then "1" else "0") (fields l2)
                          (Stdlib.List.length l2.i4_contents) (Stdlib.List.length l2.i4_payload))
           | _ -> emit ("ser=" ^ cls_of so))
